@@ -1,5 +1,5 @@
 """C03 -- incremental processing equals one-shot processing for every chunking."""
-from .. import gen
+from .. import gen, sgrgen
 from ..runner import Prop
 from .c01 import is_utf8
 
@@ -51,6 +51,24 @@ class C03(Prop):
                     lines.append("ssc %s %s" % (h, c))
                     lines.append("ssccat %s %s" % (h, c))
         yield "all-partitions", lines
+        # styled-run extractor: merged runs must not depend on the chunking
+        lines = []
+        wshort = [list(b"a\x1b[31mb\x1b[1;4:3mc"), list(b"\x1b[38;5;9mx\x1b[0my"), list("\u20ac\x1b[48;2;1;2;3mz".encode())]
+        for _ in range(10 if tier == "thorough" else 4):
+            wshort.append(sgrgen.styled_text(rng, True, pieces=3)[:maxn + 2])
+        for s in wshort:
+            h = gen.hexs(s)
+            for cuts in gen.partitions_all(len(s)):
+                lines.append("wxm %s %s" % (h, ",".join(map(str, cuts)) if cuts else "-"))
+        yield "wincon-all-partitions", lines
+        lines = []
+        for _ in range(1500 if tier == "thorough" else 400):
+            s = sgrgen.styled_text(rng, True)
+            if not s:
+                continue
+            cuts = gen.random_cuts(rng, len(s))
+            lines.append("wxm %s %s" % (gen.hexs(s), ",".join(map(str, cuts)) if cuts else "-"))
+        yield "wincon-random-partitions", lines
         n = 6000 if tier == "thorough" else 1500
         lines = []
         for i in range(n):
@@ -75,6 +93,8 @@ class C03(Prop):
         parts = line.split(" ")
         if parts[0] in ("sbccat", "ssccat"):
             return parts[2] != "-" and impl != parts[1]
+        if parts[0] == "wxm":
+            return parts[2] != "-" and impl.count("=") > 1
         return False
 
     def shrink_fields(self, line):
